@@ -230,6 +230,8 @@ def scenario_cases(prop):
     L = lambda a, t="", k="", x="": {"a": a, "t": t, "k": k, "x": x}
     out = []
     for i, (lname, text) in enumerate(SCENARIOS.get(prop, [])):
+        # (a time-out that is really slept through must be short: the 1000 s delay of `zerorep` is only ever answered at once)
+        modes = ("no",) if (lname == "zerorep" and "P:S" in text) else ("no", "yes")
         sched = []
         for tok in text.split():
             if tok in ("On", "Off"):
@@ -239,7 +241,7 @@ def scenario_cases(prop):
             else:
                 sched += [L("arrK", tok[0], tok[2:]), L("poll", "dev", "", "KT"), L("readK"), L("readK")]
         sched += [L("arrK", "E"), L("poll", "dev", "", "KT"), L("readK")]
-        for mode in ("no", "yes"):
+        for mode in modes:
             out.append({"id": "SCN-%s-%d-%s" % (prop, i, mode), "lname": lname, "layout": LAYOUTS[lname], "sched": sched, "sleep": mode, "faults": 0})
     return out
 
